@@ -26,12 +26,14 @@ func init() {
 				"information keeps an ECS record exactly when the decoded option's subnet is not the zero value (so a /0 opt-out is " +
 				"kept), and a malformed option is answered with FORMERR without calling the next stage.",
 			NotCovered: "the GeoIP data itself and the scope arithmetic of upstream answers; that the upstream honours the option.",
-			Rules: map[string]string{"C05-R26": "SubnetByLocation reads the IPv4 tables only on the IPv4 arm of its family switch and the IPv6 tables only on the IPv6 arm: a client is never given a subnet, and with it the cache entries, of the other address family", "C05-R27": "the pooled OPT record is emptied before the options of the cloned record are appended (shared with C07-R1): a client that sent no client-subnet option is not handed the subnet left in the pooled record by another client's response", "C05-R25": "cacheConfig.validate accepts exactly the two spellings of the cache type that cacheConfig.toInternal tells apart (simple, ecs): a configuration that validation lets through never falls into the other branch of the conversion and loses the ECS cache (and with it the rewriting of the client subnet)", "C05-R24": "truncate removes the answers of a truncated response and nothing else (shared with C08-R10): the OPT record with the echoed client subnet survives truncation", "C05-R23": "the cloner re-initialises every section of the pooled message, the additional section included, on every path (shared with C07-R1): a clone served from the ECS cache carries no OPT record (and no client subnet) of the response the object held before; R24: truncate empties the answer section only and keeps the OPT record with the echoed ECS option (table shared with C08-R10)", "C05-R22": "the plain forwarder's Exchange returns only a response that passed validation for this request (table shared with C17-R4): no stale datagram answering another client's query reaches the subnet-keyed cache", "C05-R21": "the GeoIP scanner asks replaceSubnet for the desired length of the network's own family: the IPv4 constant where the network's address Is4, the IPv6 constant otherwise, on every path into the call", "C05-R20": "an OPT record taken from the cloner's pool starts without options (shared with C08-R6): no client-subnet option of an earlier message is left in a constructed answer", "C05-R19": "geoip.replaceSubnet never selects a network narrower than the desired length (/24, /56), whether or not the key already has one", "C05-R18": "UpstreamPlain.processConn closes the connection after any failed exchange and pools it only after a successful one (shared with C17-R4)", "C05-R17": "dnsmsg.ecsData: the option's address is converted in the family the option declares (netutil.IPToAddr with that family), and the option is accepted exactly for family 1 or 2, a convertible address, a valid source length (the bits-beyond-the-prefix test is explored but not pinned by the table)", "C05-R16": "respIsECSDependent: a non-zero scope is ignored only when the question name itself is listed in FakeECSFQDNs (exact lookup of the name)", "C05-R15": "padAnswer only appends to the response's options, so the client-subnet echo survives padding on encrypted transports (table shared with C08-R5)", "C05-R14": "a query with more than one OPT record is answered with FORMERR and never reaches the handlers, which read and replace the client subnet in the last OPT record only (accept-gate table shared with C01-R1; table of the counting helper over additional sections of up to three records)", "C05-RC": "class rules (error chains, shadowed results, character classes, crossed arguments, pool constructors, array pools, loop completeness, loop-carried buffers, replacing setters, complete clones, Grow arithmetic, pooled-buffer escape, sorted searches, fresh decode targets, per-iteration objects, whole-message copies, codec guards) over the packages this property rests on", "C05-R13": "caches store and hand out clones (shared with C07-R4)", "C05-R12": "no slice built on a pooled byte buffer that the function gives back is stored into a longer-lived object (expected count today: zero Get/Put pairs in this code; positive instances are the seeded changes)", "C05-R11": "every maxminddb Lookup / Network call decodes into a zero value created for that call (the decoder leaves absent fields untouched)", "C05-R10": "geoip.File.Refresh: no path from installing new databases to the return skips clearing either lookup cache", "C05-R1": "handler decision tree and upstream-subnet provenance", "C05-R2": "who writes cacheRequest.subnet",
+			Rules: map[string]string{"C05-R28": "the options copied from the request into a response without an OPT record are the frozen set (table shared with C08-R5): the client-subnet option is never echoed by the server itself, with a scope it did not compute", "C05-R26": "SubnetByLocation reads the IPv4 tables only on the IPv4 arm of its family switch and the IPv6 tables only on the IPv6 arm: a client is never given a subnet, and with it the cache entries, of the other address family", "C05-R27": "the pooled OPT record is emptied before the options of the cloned record are appended (shared with C07-R1): a client that sent no client-subnet option is not handed the subnet left in the pooled record by another client's response", "C05-R25": "cacheConfig.validate accepts exactly the two spellings of the cache type that cacheConfig.toInternal tells apart (simple, ecs): a configuration that validation lets through never falls into the other branch of the conversion and loses the ECS cache (and with it the rewriting of the client subnet)", "C05-R24": "truncate removes the answers of a truncated response and nothing else (shared with C08-R10): the OPT record with the echoed client subnet survives truncation", "C05-R23": "the cloner re-initialises every section of the pooled message, the additional section included, on every path (shared with C07-R1): a clone served from the ECS cache carries no OPT record (and no client subnet) of the response the object held before; R24: truncate empties the answer section only and keeps the OPT record with the echoed ECS option (table shared with C08-R10)", "C05-R22": "the plain forwarder's Exchange returns only a response that passed validation for this request (table shared with C17-R4): no stale datagram answering another client's query reaches the subnet-keyed cache", "C05-R21": "the GeoIP scanner asks replaceSubnet for the desired length of the network's own family: the IPv4 constant where the network's address Is4, the IPv6 constant otherwise, on every path into the call", "C05-R20": "an OPT record taken from the cloner's pool starts without options (shared with C08-R6): no client-subnet option of an earlier message is left in a constructed answer", "C05-R19": "geoip.replaceSubnet never selects a network narrower than the desired length (/24, /56), whether or not the key already has one", "C05-R18": "UpstreamPlain.processConn closes the connection after any failed exchange and pools it only after a successful one (shared with C17-R4)", "C05-R17": "dnsmsg.ecsData: the option's address is converted in the family the option declares (netutil.IPToAddr with that family), and the option is accepted exactly for family 1 or 2, a convertible address, a valid source length (the bits-beyond-the-prefix test is explored but not pinned by the table)", "C05-R16": "respIsECSDependent: a non-zero scope is ignored only when the question name itself is listed in FakeECSFQDNs (exact lookup of the name)", "C05-R15": "padAnswer only appends to the response's options, so the client-subnet echo survives padding on encrypted transports (table shared with C08-R5)", "C05-R14": "a query with more than one OPT record is answered with FORMERR and never reaches the handlers, which read and replace the client subnet in the last OPT record only (accept-gate table shared with C01-R1; table of the counting helper over additional sections of up to three records)", "C05-RC": "class rules (error chains, shadowed results, character classes, crossed arguments, pool constructors, array pools, loop completeness, loop-carried buffers, replacing setters, complete clones, Grow arithmetic, pooled-buffer escape, sorted searches, fresh decode targets, per-iteration objects, whole-message copies, codec guards) over the packages this property rests on", "C05-R13": "caches store and hand out clones (shared with C07-R4)", "C05-R12": "no slice built on a pooled byte buffer that the function gives back is stored into a longer-lived object (expected count today: zero Get/Put pairs in this code; positive instances are the seeded changes)", "C05-R11": "every maxminddb Lookup / Network call decodes into a zero value created for that call (the decoder leaves absent fields untouched)", "C05-R10": "geoip.File.Refresh: no path from installing new databases to the return skips clearing either lookup cache", "C05-R1": "handler decision tree and upstream-subnet provenance", "C05-R2": "who writes cacheRequest.subnet",
 				"C05-R3": "lookup order and opt-out gate", "C05-R4": "echo gates and setECS table", "C05-R5": "ECS record / FORMERR tables"},
 		}})
 }
 
 func runC05(c *an.Ctx) {
+	c.Floor("C05-R28", 1)
+	c.Borrow("C05-R28", runC08, func(o an.Obligation) bool { return o.Rule == "C08-R5" })
 	c.Floor("C05-R26", 4)
 	if n := c05FamilyFields(c, "C05-R26"); n < 4 {
 		c.Und("C05-R26", "per-family table reads", 0, "%d reads found, 4 expected", n)
